@@ -311,7 +311,7 @@ func deriveOracle(calls []encCall, mixed, lossless bool) (StepOracle, StepFail) 
 
 // Run executes the history on the real encoder and plays the result back.
 func Run(h *History, rng *Rand) (out *Outcome) {
-	out = &Outcome{Faulty: h.Faulty()}
+	out = &Outcome{Faulty: h.Faulty() || h.HasRaw()}
 	defer func() {
 		if r := recover(); r != nil {
 			out.Err = fmt.Sprintf("PANIC %v", r)
@@ -391,10 +391,22 @@ func Run(h *History, rng *Rand) (out *Outcome) {
 				}
 				err = e.AddRawFrame(bs, dur, ro.X, ro.Y, bl, di)
 			}
+			out.Oracles = append(out.Oracles, StepOracle{})
+			out.Fails = append(out.Fails, StepFail{})
 			if err != nil {
-				out.Err = "addrawerr"
-				return
+				if !h.Faulty() {
+					out.Err = "addrawerr"
+					return
+				}
+				out.Rejected = append(out.Rejected, i)
+				continue
 			}
+			fc, _, _, _, _, _, _ := animation.VerifEncoderState(e)
+			for ; prevCount < fc; prevCount++ {
+				out.EmitInput = append(out.EmitInput, i)
+				out.EmitFiller = append(out.EmitFiller, false)
+			}
+			lastAcc = -1
 			continue
 		}
 		if err := e.AddFrame(h.Frames[i].image(rng), time.Duration(h.Frames[i].DurMS)*time.Millisecond); err != nil {
@@ -424,7 +436,7 @@ func Run(h *History, rng *Rand) (out *Outcome) {
 		setMeta()
 	}
 	if err := e.Close(); err != nil {
-		if len(out.Rejected) == len(h.Frames) && buf.Len() == 0 {
+		if (len(out.Rejected) == len(h.Frames) || h.HasRaw()) && buf.Len() == 0 {
 			out.Err = "noframes" // every AddFrame was rejected: nothing is written
 			return
 		}
@@ -479,6 +491,11 @@ func Run(h *History, rng *Rand) (out *Outcome) {
 		return
 	}
 	for i := range an.Frames {
+		if im, ok := an.Frames[i].Image.(*image.NRGBA); ok && i < len(out.Frames) && out.Still {
+			// a still in the extended layout: the demuxer reports the canvas size as the frame size;
+			// the frame picture is what the bitstream decodes to
+			out.Frames[i].W, out.Frames[i].H = im.Rect.Dx(), im.Rect.Dy()
+		}
 		if im, ok := an.Frames[i].Image.(*image.NRGBA); ok && i < len(out.Frames) && im.Stride == 4*im.Rect.Dx() {
 			out.Frames[i].Pix = append([]byte(nil), im.Pix...)
 		}
@@ -511,10 +528,17 @@ func (o *Outcome) CodecExact(h *History) int {
 			continue
 		}
 		src := h.Pad(f.Input)
+		raw := f.Input < len(h.Frames) && h.Frames[f.Input].RawOp != nil
 		for y := 0; y < f.H; y++ {
 			for x := 0; x < f.W; x++ {
 				var want []byte
-				if f.Filler {
+				if raw {
+					rf := &h.Frames[f.Input]
+					if x >= rf.W || y >= rf.H {
+						continue
+					}
+					want = rf.Pix[(y*rf.W+x)*4 : (y*rf.W+x)*4+4]
+				} else if f.Filler {
 					want = []byte{0, 0, 0, 0}
 				} else if f.X+x < h.W && f.Y+y < h.H {
 					want = src[((f.Y+y)*h.W+f.X+x)*4 : ((f.Y+y)*h.W+f.X+x)*4+4]
@@ -567,6 +591,9 @@ func (h *History) CaseLine(mode string, o *Outcome) string {
 	if h.Faulty() {
 		kind = "ence"
 	}
+	if h.HasRaw() {
+		kind = "encr"
+	}
 	fmt.Fprintf(&sb, "%s %s %d %d %d %d %d %d %d %d %d %d %d", kind, mode, h.W, h.H, h.Loop, h.Kmin, h.Kmax,
 		b2i(h.Lossless), b2i(h.Mixed), h.Quality, b2i(h.HasMeta()), b2i(o.Simple), len(h.Frames))
 	_ = kind
@@ -578,6 +605,23 @@ func (h *History) CaseLine(mode string, o *Outcome) string {
 		px := "-"
 		if len(f.Pix) > 0 {
 			px = hex.EncodeToString(f.Pix)
+		}
+		if h.HasRaw() {
+			if ro := f.RawOp; ro != nil {
+				x, y, bn, db := ro.X, ro.Y, ro.BlendNone, ro.DispBG
+				if ro.ViaAddFrame {
+					x, y, bn, db = 0, 0, false, false
+				}
+				fmt.Fprintf(&sb, " R %d %d %d %d %d %d %d %s", x, y, f.W, f.H, f.DurMS, b2i(bn), b2i(db), px)
+				continue
+			}
+			var sf StepFail
+			if i < len(o.Fails) {
+				sf = o.Fails[i]
+			}
+			fmt.Fprintf(&sb, " A %d %d %d %d %d %d %d %d %d %d %d %d %s", f.W, f.H, f.DurMS, b2i(so.BG), b2i(so.Key), b2i(so.AltA), b2i(so.AltB), b2i(so.AltC),
+				b2i(sf.A), b2i(sf.B), b2i(sf.C), b2i(sf.K), px)
+			continue
 		}
 		if h.Faulty() {
 			var sf StepFail
